@@ -84,10 +84,67 @@ def crash_points(v, refs, sources, quick, seed):
     v.cov["traces_validated_against_impl"] += n
 
 
-def schedules(v, refs, quick, clause="Inv_C16_Safe", pairs=None):
-    """two live processes, every pair of pre-emption points (context bound 2)"""
+def first_definitions(v, refs, quick):
+    """two processes make the FIRST definition of a class in a source directory (no __pkts__ yet), every pair of pre-emption points"""
     from bind import cache_harness as ch
     n = 0
+    for d in (["A"] if quick else ["A", "L", "H"]):
+        for k1 in range(0, 8):
+            for k2 in range(0, 8):
+                w = ch.World(refs, False)
+                try:
+                    a, b = w.child(d, same_dir=True), w.child(d, same_dir=True)
+                    for _ in range(k1):
+                        if a.pending is not None:
+                            a.go()
+                    for _ in range(k2):
+                        if b.pending is not None:
+                            b.go()
+                    a.run_to_end()
+                    b.run_to_end()
+                    n += 1
+                    v.count_case(("first", d, k1, k2), nontrivial=True)
+                    for c in (a, b):
+                        if c.outcome != "own":
+                            v.violation("Inv_C16_Safe", "two processes made the first definition of %s in one directory (no __pkts__ yet): one ended as %r "
+                                        "(%d steps of the first, then %d of the second, then the rest)" % (d, c.outcome, k1, k2),
+                                        {"decl": d, "k": [k1, k2], "trace": c.trace})
+                finally:
+                    w.close()
+    v.cov["first_definition_interleavings"] = n
+    v.cov["traces_validated_against_impl"] += n
+
+
+def schedules(v, refs, quick, clause="Inv_C16_Safe", pairs=None, sources=None):
+    """two live processes, every pair of pre-emption points (context bound 2)"""
+    from bind import cache_harness as ch, cache_replay as cr
+    n = 0
+    if sources is not None:
+        # over a cache file left by a THIRD declaration (both processes will replace it), every pair of points
+        for d1, d2, d3 in ([("A", "B", "Bp")] if quick else [("A", "B", "Bp"), ("B", "Bp", "A"), ("H", "Hp", "A")]):
+            for k1 in range(0, 16):
+                for k2 in range(0, 16):
+                    w = ch.World(refs, False)
+                    try:
+                        cr.seed(w, sources, {"file": {"exists": True, "owner": d3, "shape": "complete"}, "pyc": {"exists": False}})
+                        a, b = w.child(d1), w.child(d2)
+                        for _ in range(k1):
+                            if a.pending is not None:
+                                a.go()
+                        for _ in range(k2):
+                            if b.pending is not None:
+                                b.go()
+                        a.run_to_end()
+                        b.run_to_end()
+                        n += 1
+                        v.count_case(("sched_over", d1, d2, d3, k1, k2), nontrivial=True)
+                        for c in (a, b):
+                            if c.outcome != "own":
+                                v.violation(clause, "process defining %s ended as %r (other process: %s, over a cache file of %s; %d steps of the first, "
+                                            "then %d of the second, then the rest)" % (c.decl, c.outcome, d2 if c is a else d1, d3, k1, k2),
+                                            {"decls": [d1, d2], "over": d3, "k": [k1, k2], "trace": c.trace})
+                    finally:
+                        w.close()
     pairs = pairs or ([("A", "A"), ("A", "B"), ("B", "Bp"), ("H", "Hp")] if not quick else [("A", "B"), ("B", "Bp"), ("H", "Hp")])
     for d1, d2 in pairs:
         for bytecode in (False, True):
@@ -172,12 +229,14 @@ def run(tier, seed):
     v.cov["behaviours_with_fs_state_drift"] = drift
     # 3. crash points and interleavings enumerated on the real protocol
     crash_points(v, refs, sources, quick, seed)
-    schedules(v, refs, quick)
+    schedules(v, refs, quick, sources=sources)
+    first_definitions(v, refs, quick)
     v.cov["exhaustive"] = True
     v.cov["rule"] = ("TLC: every interleaving/crash of the protocol model within 2 (3) processes; real processes: TLC-simulated "
                      "behaviours forced step by step, every crash point between file-system calls and after every %s byte of the real "
                      "generated module followed by fresh definitions of the same and of another declaration, all 2-pre-emption "
-                     "interleavings of two live definitions; non-trivial = at least 6 steps / any crash; distinct cases hashed." % ("9th" if quick else ""))
+                     "interleavings of two live definitions (from an empty cache, over a cache file of a third declaration, and as the first "
+                     "definitions in a directory without __pkts__); non-trivial = at least 6 steps / any crash; distinct cases hashed." % ("9th" if quick else ""))
     v.assumptions = ["the file system is abstracted to (owner by cookie, shape by compiling the content, bytecode present)",
                      "mtime seconds are forced with os.utime to the model's clock"]
     return v.finish()
